@@ -24,20 +24,12 @@ def splitOn (sep : Nat) : Bytes → List Bytes
   | [] => [[]]
   | c :: cs =>
     if c = sep then [] :: splitOn sep cs
-    else match splitOn sep cs with
-      | [] => [[c]]            -- unreachable (`splitOn_ne_nil`)
-      | t :: ts => (c :: t) :: ts
+    else (c :: (splitOn sep cs).headD []) :: (splitOn sep cs).tail
 
 theorem splitOn_ne_nil (sep : Nat) (s : Bytes) : splitOn sep s ≠ [] := by
-  induction s with
+  cases s with
   | nil => simp [splitOn]
-  | cons c cs ih =>
-    unfold splitOn
-    split
-    · simp
-    · split
-      · simp
-      · simp
+  | cons c cs => unfold splitOn; split <;> simp
 
 /-- Join tokens with a separator (`strings.Join`). -/
 def joinWith (sep : Nat) : List Bytes → Bytes
